@@ -145,7 +145,9 @@ def run_check(repo, chk: Check, tier, prefix):
     solver_budget_ms = (150 if tier == "quick" else 900) * 1000
     spent = 0
     dropped = []
-    for name, insts in groups.items():
+    # the contract's own clauses first, preconditions of primitives (`prim.*`) after them: when the solver budget runs out on a changed
+    # tree, it should not be a side condition that used it up
+    for name, insts in sorted(groups.items(), key=lambda kv: "prim." in kv[0]):
         results, ms, info, vac = [], 0, {}, 0
         for o in insts:
             if "refuted" in results:
